@@ -202,6 +202,17 @@ func TestVerifC18Migrate(t *testing.T) {
 		var l []detection.Signature
 		for i := 0; i < size; i++ {
 			s := detection.Signature{ID: fmt.Sprintf("G%05d", i), Name: fmt.Sprintf("n%d", i), TopologyHash: fmt.Sprintf("%04x", i%7), FuzzyHash: fmt.Sprintf("F%d", i%3), EntropyScore: float64(i%80) / 10}
+			// optional fields: present in entry i exactly when absent in entry i+1000 (the same
+			// position of the next batch), and the other way round
+			if (i/1000+i)%2 == 0 {
+				s.Description, s.Severity, s.Category = fmt.Sprintf("d%d", i), "HIGH", "c"
+				s.EntropyTolerance, s.NodeCount, s.LoopDepth = 0.25, i%9+1, i%3+1
+				s.IdentifyingFeatures = detection.IdentifyingFeatures{RequiredCalls: []string{fmt.Sprintf("call%d", i)}, OptionalCalls: []string{"o"}, StringPatterns: []string{fmt.Sprintf("p%d", i)},
+					ControlFlow: &detection.ControlFlowHints{HasInfiniteLoop: i%4 == 0, HasReconnectLogic: i%4 == 2}}
+				s.Metadata = detection.SignatureMetadata{Author: "a", Created: "2026-01-01", References: []string{fmt.Sprintf("ref%d", i)}}
+			} else {
+				s.FuzzyHash = ""
+			}
 			l = append(l, s)
 		}
 		// repeated IDs: adjacent, far apart inside one batch, and across every batch boundary
